@@ -319,7 +319,11 @@ func WindowFrameSet(partition Partition, expr parser.AnalyticClause) []WindowFra
 }
 
 func windowValues(ctx context.Context, scope *ReferenceScope, frame WindowFrame, partition Partition, expr parser.AnalyticFunction, valueCache map[int]value.Primary) ([]value.Primary, error) {
-	values := make([]value.Primary, 0, frame.High-frame.Low+1)
+	frameLen := frame.High - frame.Low + 1
+	if frameLen < 0 {
+		frameLen = 0
+	}
+	values := make([]value.Primary, 0, frameLen)
 
 	anScope := scope.CreateScopeForAnalytics()
 	for i := frame.Low; i <= frame.High; i++ {
